@@ -340,6 +340,10 @@ def c08_6(ctx):
                     lit = t.args[0].value
                 elif isinstance(t, ast.Compare) and isinstance(t.ops[0], ast.Eq) and isinstance(t.comparators[0], ast.Constant):
                     lit = t.comparators[0].value
+                elif isinstance(t, ast.Compare) and isinstance(t.ops[0], ast.In) and isinstance(t.comparators[0], (ast.Tuple, ast.List, ast.Set)) and cls_made:
+                    for e_ in t.comparators[0].elts:
+                        if isinstance(e_, ast.Constant):
+                            got[e_.value] = cls_made[0]
                 if lit is not None and cls_made:
                     got[lit] = cls_made[0]
     ctx.check(got == want, 'chain:directive-dispatch', cl_init.site(), 'each conditional directive builds its own condition class',
